@@ -154,8 +154,9 @@ func h02Recipe() CharRecipe {
 	ns := vParam("strings", len(h02Strings))
 	r.AllowChars = h02Strings[vChoice("allowchars", ns)]
 	r.ExcludeChars = h02Strings[vChoice("excludechars", ns)]
-	r.RequireSets = h02ReqSets[vChoice("requiresets", vParam("reqsets", len(h02ReqSets)))]
-	r.Length = vLen("length", 1, vParam("L", 2))
+	rmin := vParam("reqsetmin", 0)
+	r.RequireSets = h02ReqSets[rmin+vChoice("requiresets", vParam("reqsets", len(h02ReqSets))-rmin)]
+	r.Length = vLen("length", vParam("Lmin", 1), vParam("L", 2))
 	return r
 }
 
